@@ -50,6 +50,10 @@ type Layout struct {
 	PrincipalSlash bool   `json:"principal_slash,omitempty"`
 	HomeSlash      bool   `json:"home_slash,omitempty"`
 	Colls          []Coll `json:"colls"`
+	// Second: discovery only - after the chain has been walked for User, the same handler serves this second user
+	// (the backend answers with the second user's principal, home set and collections, as a backend does that takes
+	// the identity from the request context) and the chain is walked again (after C12-s13: per-handler caches)
+	Second string `json:"second_user,omitempty"`
 }
 
 type Request struct {
@@ -129,28 +133,46 @@ type world struct {
 
 func build(l Layout) *world {
 	w := &world{l: l}
+	configure(w, l)
+	return w
+}
+
+// configure (re)fills the backend double for a layout; the handler, once made, stays the same
+func configure(w *world, l Layout) {
+	w.l = l
 	if l.Server == "caldav" {
-		b := &vdbl.CalBackend{Principal: l.principal(), HomeSet: l.home(), Objects: map[string][]caldav.CalendarObject{}}
+		b := w.cal
+		if b == nil {
+			b = &vdbl.CalBackend{}
+		}
+		b.Principal, b.HomeSet, b.Objects, b.Calendars = l.principal(), l.home(), map[string][]caldav.CalendarObject{}, nil
 		for _, c := range l.Colls {
 			b.Calendars = append(b.Calendars, caldav.Calendar{Path: l.coll(c), Name: "n-" + c.Name})
 			for _, o := range c.Objs {
 				b.Objects[l.coll(c)] = append(b.Objects[l.coll(c)], caldav.CalendarObject{Path: l.obj(c, o), ETag: "e", Data: event("u-" + o)})
 			}
 		}
-		w.cal = b
-		w.h = &caldav.Handler{Backend: b, Prefix: l.prefixPath()}
+		if w.cal == nil {
+			w.cal = b
+			w.h = &caldav.Handler{Backend: b, Prefix: l.prefixPath()}
+		}
 	} else {
-		b := &vdbl.CardBackend{Principal: l.principal(), HomeSet: l.home(), Objects: map[string][]carddav.AddressObject{}}
+		b := w.card
+		if b == nil {
+			b = &vdbl.CardBackend{}
+		}
+		b.Principal, b.HomeSet, b.Objects, b.Books = l.principal(), l.home(), map[string][]carddav.AddressObject{}, nil
 		for _, c := range l.Colls {
 			b.Books = append(b.Books, carddav.AddressBook{Path: l.coll(c), Name: "n-" + c.Name})
 			for _, o := range c.Objs {
 				b.Objects[l.coll(c)] = append(b.Objects[l.coll(c)], carddav.AddressObject{Path: l.obj(c, o), ETag: "e", Card: contact(o)})
 			}
 		}
-		w.card = b
-		w.h = &carddav.Handler{Backend: b, Prefix: l.prefixPath()}
+		if w.card == nil {
+			w.card = b
+			w.h = &carddav.Handler{Backend: b, Prefix: l.prefixPath()}
+		}
 	}
-	return w
 }
 
 type call struct{ Op, Path string }
@@ -389,9 +411,19 @@ func hrefs(l []cfs.Reported) []string {
 func evalDiscovery(c Case) (vev.Outcome, error) {
 	l := c.Layout
 	w := build(l)
+	o, err := walkChain(w, l, l.Server+"|discovery")
+	if err != nil || !o.OK() || l.Second == "" || l.Second == l.User {
+		return o, err
+	}
+	l2 := l
+	l2.User = l.Second
+	configure(w, l2)
+	return walkChain(w, l2, l.Server+"|discovery|second-user")
+}
+
+func walkChain(w *world, l Layout, cls string) (vev.Outcome, error) {
 	hc, _ := vwire.Client(w.h)
 	ctx := context.Background()
-	cls := l.Server + "|discovery"
 	var wantColls []string
 	wantObjs := map[string][]string{}
 	for _, cc := range l.Colls {
@@ -648,7 +680,12 @@ func TestDiscovery(t *testing.T) {
 				l.Colls[i].Under = rapid.SampledFrom([][]string{{l.User, l.Home + "-archive"}, {"shared", "team"}, {l.User + "x", l.Home}, {l.User, "inbox"}}).Draw(rt, "under")
 			}
 		}
-		run(t, rt, Case{Layout: l, Kind: "discovery"}, "discovery/"+l.Server)
+		cls := "discovery/" + l.Server
+		if rapid.IntRange(0, 2).Draw(rt, "second-user?") == 0 {
+			l.Second = genSeg(rt, "second")
+			cls += "/two-users-one-handler"
+		}
+		run(t, rt, Case{Layout: l, Kind: "discovery"}, cls)
 	})
 }
 
